@@ -23,7 +23,7 @@ from vmon.props.c11 import solo_result
 
 LEVEL = "exploration"
 SHARDS = {"quick": 16, "thorough": 16}
-MUST = ["spelling.styles", "trivia.comment", "trivia.pi", "trivia.whitespace", "trivia.paths_probed", "special_names.loads", "load.forms_rotated", "load.form.str-path", "load.form.Path", "load.form.open-file", "load.form.load_xml-or-stream", "layout.one-line", "layout.crlf", "layout.blank-lines", "layout.tabs", "layout.no-indent", "history.runs", "history.failed_prior_loads",
+MUST = ["spelling.styles", "trivia.comment", "trivia.pi", "trivia.whitespace", "trivia.paths_probed", "special_names.loads", "load.forms_rotated", "load.form.str-path", "load.form.Path", "load.form.open-file", "load.form.load_xml-or-stream", "layout.one-line", "layout.crlf", "layout.blank-lines", "layout.tabs", "layout.no-indent", "layout.entities", "history.runs", "history.failed_prior_loads",
         "history.style_changes", "baseline.fresh_process", "path.ContextCalibratorList", "path.EntryList", "path.ComparisonList"]
 RULE = ("case = (document IR, rendering = namespace convention x trivia placement, history of prior loads); fingerprint "
         "(canonical written XML + decode of steered packets) must equal the baseline. Renderings: 15 namespace conventions; inter-element whitespace layouts "
@@ -45,12 +45,16 @@ STYLES = [("prefix", "xtce"), ("prefix", "custom"), ("prefix", "a"), ("prefix", 
 TRIVIA = {"comment": "<!-- c: <xtce:Fake/> -->", "pi": "<?vmon keep?>", "whitespace": "\n\n   \t  \n"}
 
 
-LAYOUTS = ("one-line", "crlf", "blank-lines", "tabs", "no-indent")
+LAYOUTS = ("one-line", "crlf", "blank-lines", "tabs", "no-indent", "entities")
 
 
 def relayout(xml: bytes, layout):
     """change only the pretty-printer's own inter-element whitespace (newline + indentation between tags)"""
     import re
+    if layout == "entities":
+        # element text spelled with internal DTD entities (an XML parser hands the application the same text)
+        from vmon.props.c06 import entityfy
+        return entityfy(xml)
     rep = {"crlf": lambda m: b">\r\n" + m.group(1) + b"<", "blank-lines": lambda m: b">\n\n\n" + m.group(1) + b"<",
            "tabs": lambda m: b">\n" + b"\t" * (len(m.group(1)) // 2) + b"<", "no-indent": lambda m: b">\n<"}[layout]
     return re.sub(rb">\n( *)<", rep, xml)
@@ -288,7 +292,7 @@ def run(ctx):
     ctx.note("namespace class states seen: " + repr(sorted(states))[:600])
 
 
-SPECIAL = ["(1)", "-1", "+1", ",1", "=1", "#1", "@1", "*", "|1", "{1}", "~1", "!", "$", "%1", ";1", "?", "\u00e4", "&1", "<1", ")(", "(", "_x-y.z"[:4]]
+SPECIAL = ['"1', "(1)", "-1", "+1", ",1", "=1", "#1", "@1", "*", "|1", "{1}", "~1", "!", "$", "%1", ";1", "?", "\u00e4", "&1", "<1", ")(", "(", "_x-y.z"[:4]]
 
 
 def special_names(ctx):
